@@ -151,6 +151,12 @@ class Ctx:
             self.assume((a.z < toz(hi)) if hi_strict else (a.z <= toz(hi)))
         return a
 
+    def angle_deg(self, name, lo=None, hi=None, lo_strict=True, hi_strict=True):
+        """an input angle handed to the code in DEGREES: the value theta*180/pi of the radian atom `name`
+        (bounds lo/hi are in radians)"""
+        a = self.angle(name, lo, hi, lo_strict, hi_strict)
+        return trig.Angle({name: (Fraction(180), -1)})
+
     def const(self, v):
         return v
 
@@ -314,6 +320,33 @@ def _stages(hyps, goal):
     return stages
 
 
+def _is_sos(e):
+    """syntactic sum of squares (numerals >= 0 allowed): trivially non-negative"""
+    if z3.is_rational_value(e):
+        return e.numerator_as_long() >= 0
+    if z3.is_add(e):
+        return all(_is_sos(ch) for ch in e.children())
+    if z3.is_mul(e):
+        ch = e.children()
+        if len(ch) == 2 and ch[0].get_id() == ch[1].get_id():
+            return True
+        if len(ch) == 2 and z3.is_rational_value(ch[0]) and ch[0].numerator_as_long() >= 0:
+            return _is_sos(ch[1])
+        # x*x*y*y ...: every factor paired
+        ids = sorted(c_.get_id() for c_ in ch)
+        return len(ids) % 2 == 0 and all(ids[i] == ids[i + 1] for i in range(0, len(ids), 2))
+    return False
+
+
+def _trivial_goal(g):
+    """goals decided syntactically: sum-of-squares >= 0"""
+    if z3.is_app(g) and g.decl().kind() == z3.Z3_OP_GE and z3.is_rational_value(g.arg(1)) and g.arg(1).numerator_as_long() <= 0:
+        return _is_sos(g.arg(0))
+    if z3.is_app(g) and g.decl().kind() == z3.Z3_OP_LE and z3.is_rational_value(g.arg(0)) and g.arg(0).numerator_as_long() <= 0:
+        return _is_sos(g.arg(1))
+    return False
+
+
 def _abstract_shared(formulas, skip=None):
     """generalisation tactic: replace every maximal arithmetic subterm that occurs in at least two of the
     formulas by a fresh constant.  If the generalised query is unsat so is the original (validity of a
@@ -363,7 +396,7 @@ def _abstract_shared(formulas, skip=None):
     return [z3.substitute(f, *pairs) for f in formulas], len(pairs)
 
 
-def prove(hyps, goal, timeout_ms, safety_hyps=()):
+def prove(hyps, goal, timeout_ms, safety_hyps=(), evals=None):
     """staged over growing hypothesis sets; per stage: z3 (short budget), then an ideal-membership
     certificate checked by z3 (equality goals).  The last stage adds z3 with the full budget, the nlsat
     tactic and cvc5.  Only the last stage (all hypotheses) may refute."""
@@ -375,7 +408,7 @@ def prove(hyps, goal, timeout_ms, safety_hyps=()):
     info = None
     for si, hs in enumerate(stages):
         last = si == len(stages) - 1
-        v, m, t = core.z3_check(hs, neg, quick)
+        v, m, t = core.z3_check(hs, neg, quick, evals=evals if (si == len(stages) - 1) else None)
         total += t
         if v == 'unsat':
             return dict(verdict='proved', by='z3', secs=total)
@@ -397,13 +430,13 @@ def prove(hyps, goal, timeout_ms, safety_hyps=()):
         if v == 'unsat':
             return dict(verdict='proved', by='z3-abs', secs=total)
     if timeout_ms > quick:
-        v, m, t = core.z3_check(hyps, neg, timeout_ms)
+        v, m, t = core.z3_check(hyps, neg, timeout_ms, evals=evals)
         total += t
         if v == 'unsat':
             return dict(verdict='proved', by='z3', secs=total)
         if v == 'sat':
             return dict(verdict='refuted', by='z3', secs=total, model=m)
-    v, m, t = core.z3_check(hyps, neg, timeout_ms / 2, tactic='qfnra-nlsat')
+    v, m, t = core.z3_check(hyps, neg, timeout_ms / 2, tactic='qfnra-nlsat', evals=evals)
     total += t
     if v == 'unsat':
         return dict(verdict='proved', by='z3-nlsat', secs=total)
@@ -418,30 +451,36 @@ def prove(hyps, goal, timeout_ms, safety_hyps=()):
     return dict(verdict='undecided', by='-', secs=total, cert=str(info)[:100])
 
 
-def model_inputs(m, ctx, pairs=None):
-    out = {}
+def input_evals(ctx, pairs=None):
+    """expressions whose model values make up a replayable input"""
+    ev = {}
     for name, v in ctx.inputs.items():
-        try:
-            out[name] = core.model_value(m, v)
-        except Exception:
-            out[name] = 0.0
-    # an input angle is replayed as the angle of its (cos, sin) pair: the abstraction only knows the pair
+        ev[name] = v
+    ev['__pi__'] = PI
     for name in ctx.angles:
         best = None
         for (atom, D), (cz, sz) in (pairs or {}).items():
             if atom == name and (best is None or D > best[0]):
                 best = (D, cz, sz)
         if best is not None:
-            try:
-                cval, sval = core.model_value(m, best[1]), core.model_value(m, best[2])
-                out['th_' + name] = best[0] * math.atan2(sval, cval)
-                out['__exact_angles__'] = 1.0
-            except Exception:
-                pass
-    try:
-        out['__pi__'] = core.model_value(m, PI)
-    except Exception:
-        pass
+            ev['__pair__' + name] = [z3.RealVal(best[0]), best[1], best[2]]
+    return ev
+
+
+def model_inputs(m, ctx, pairs=None):
+    """m: DictModel produced with input_evals()"""
+    out = {}
+    for name in ctx.inputs:
+        v = m.get(name)
+        out[name] = v if v is not None else 0.0
+    if m.get('__pi__') is not None:
+        out['__pi__'] = m.get('__pi__')
+    # an input angle is replayed as the angle of its (cos, sin) pair: the abstraction only knows the pair
+    for name in ctx.angles:
+        pr = m.get('__pair__' + name)
+        if pr and None not in pr:
+            out['th_' + name] = pr[0] * math.atan2(pr[2], pr[1])
+            out['__exact_angles__'] = 1.0
     return out
 
 
@@ -539,21 +578,27 @@ def run_unit(unit, tier='quick'):
             if n not in res['notes']:
                 res['notes'].append(n)
         # cover: the path's hypotheses must be satisfiable (vacuity guard + cross-check input)
-        v, m, t = core.z3_check(hyps + links, z3.BoolVal(True), 10000)
+        ev = input_evals(ctx, p.extra_info['pairs'])
+        okeys = {}
+        for k, val in p.observed.items():
+            try:
+                arr = _np.asarray(val, dtype=object)
+                ev['__obs__' + k] = [toz(e) for e in arr.ravel()]
+                okeys[k] = True
+            except Exception:
+                okeys[k] = False
+        v, m, t = core.z3_check(hyps + links, z3.BoolVal(True), 10000, evals=ev)
         cover = dict(path=pi, taken=''.join('T' if b else 'F' for b in p.taken), verdict=v)
         if v == 'unsat':
             cover['dropped'] = True
             res['covers'].append(cover)
             continue
-        if v == 'sat':
+        if v == 'sat' and m is not None:
             cover['inputs'] = model_inputs(m, ctx, p.extra_info['pairs'])
             obs = {}
-            for k, val in p.observed.items():
-                try:
-                    arr = _np.asarray(val, dtype=object)
-                    obs[k] = [core.model_value(m, toz(e)) for e in arr.ravel()]
-                except Exception as ex:
-                    obs[k] = None
+            for k, ok in okeys.items():
+                vals = m.get('__obs__' + k) if ok else None
+                obs[k] = vals if (vals is not None and None not in vals) else None
             cover['observed'] = obs
             cover['outcome'] = p.outcome[0] if p.outcome[0] == 'ok' else type(p.outcome[1]).__name__
         res['covers'].append(cover)
@@ -565,7 +610,7 @@ def run_unit(unit, tier='quick'):
             gs = z3.simplify(g) if not z3.is_false(g) else g
             if z3.is_false(gs):
                 g = gs
-            if z3.is_true(gs):
+            if z3.is_true(gs) or _trivial_goal(g):
                 o['proved'] += 1; o['by']['trivial'] = o['by'].get('trivial', 0) + 1
                 continue
             if kind == 'engine':
@@ -578,12 +623,13 @@ def run_unit(unit, tier='quick'):
             elif isinstance(name, _Marked):
                 hy = list(p.assume[:name.nassume]) + list(p.pc) + list(p.defs) + list(p.extra)
             sh = safety_hyps if kind != 'safety' else ()
-            r = prove(hy, g, timeout_ms, sh)
+            ev = input_evals(ctx, p.extra_info['pairs'])
+            r = prove(hy, g, timeout_ms, sh, evals=ev)
             if TRACE:
                 print(f"[trace] path {pi} {str(name)}: {r['verdict']} by {r['by']} {r['secs']:.2f}s", file=sys.stderr, flush=True)
             if r['verdict'] != 'proved' and links:
                 # generalised query failed: retry with the definitions behind the summaries revealed
-                r2 = prove(hy + links, g, timeout_ms, sh)
+                r2 = prove(hy + links, g, timeout_ms, sh, evals=ev)
                 r2['secs'] += r['secs']
                 r = r2
             o['secs'] += r['secs']; res['solver_s'] += r['secs']
